@@ -183,7 +183,8 @@ def renormalisation(rep: Report, prog: Program, resolver: Resolver, tier: str) -
                     continue
                 fl = f.flags
                 normal = ({"no_one", "no_zero", "fallback"} <= fl) or ("simplified" in fl and not ({"pos", "neg"} & fl)) \
-                    or (bool({"pos", "neg"} & fl) and "fallback" in fl)
+                    or (bool({"pos", "neg"} & fl) and bool({"fallback", "nonempty"} & fl)) or ("one" in fl and not f.mono) \
+                    or ({"no_one", "no_zero", "nonempty"} <= fl)
                 rep.check("R02.4", key, normal,
                           "the factor mapping passed to Unit(...) is neither the result of _simplify (zero and One "
                           f"entries removed, One fallback), an operand's own factors, nor a sign-subset with the One "
@@ -192,11 +193,29 @@ def renormalisation(rep: Report, prog: Program, resolver: Resolver, tier: str) -
                 rep.check("R02.7", key, not ({"selfkey", "rekeyed"} & fl),
                           "factor keys are not the operands' base units (an operand is used as its own key or keys "
                           "are rewritten): the normal form is no longer unique", fi.where(ev.node))
-    # _simplify itself
+    # _simplify itself: every return is the filtered map (no One, no zero exponents) with the
+    # {One: 1} fallback for the empty case
+    from ..absint import G
     simp = prog.func("Unit._simplify")
-    txt = ast.unparse(simp.node).replace(" ", "")
-    rep.check("R02.4", "Unit._simplify:filters", "isnotOne" in txt and "!=0" in txt and "or{One:1}" in txt,
-              "Unit._simplify no longer drops One, drops zero exponents and falls back to {One: 1}", simp.where())
+    try:
+        r = run_function(prog, resolver, "Unit._simplify", ("dimension", "prefix", "unit"),
+                         {simp.params()[0]: __import__("sa.absint", fromlist=["OpaqueV"]).OpaqueV("cls"),
+                          simp.params()[1]: GroupV("F", G("F", "x").mono, set(), True)})
+    except Unsupported as e:
+        raise AnalysisError(f"Unit._simplify: {e}")
+    rets = [o for o in r.outcomes if o.kind == "return"]
+    if not rets:
+        raise AnalysisError("Unit._simplify: no return analysed")
+    for o in rets:
+        v = o.value
+        if isinstance(v, DictV):
+            v = v.g
+        fl = v.flags if isinstance(v, GroupV) else set()
+        ok = isinstance(v, GroupV) and (({"no_one", "no_zero"} <= fl and bool({"fallback", "nonempty"} & fl)) or ("one" in fl and not v.mono))
+        arm = "&".join(("" if t else "not ") + c for c, t in o.path) or "-"
+        rep.check("R02.4", f"Unit._simplify|{arm}", ok,
+                  f"Unit._simplify returns a mapping with properties {sorted(fl)}: it must drop One, drop zero exponents and fall back "
+                  "to {One: 1} when nothing is left", simp.where(o.node))
 
 
 def run(rep: Report) -> None:
